@@ -1,3 +1,4 @@
+import PncModel.Generated.UamivLayouts
 import PncProofs.UamivLemmas
 import PncModel.Camx.Slab
 import PncProofs.LanduseThms
@@ -207,5 +208,23 @@ example : Boundary.WFb 1 2 1 1 exBoundary ∧ Boundary.read (Boundary.encode exB
 example : Wind.WFw 2 1 3 [⟨1, 19200, some 0, [[1, 2], [3, 4]]⟩, ⟨2, 19200, some 0, [[5, 6], [7, 8]]⟩] ∧
     CloudRain.WFc 3 ⟨[1, 2], 2, 1, 1, [⟨7, 19200, [[1, 2], [3, 4], [5, 6]]⟩]⟩ := by
   refine ⟨⟨by decide, by decide, by decide, by decide, by decide⟩, ⟨by decide, by decide, by decide⟩⟩
+
+/-- **tie to the source** (regenerated from camxfiles/uamiv/Write.py and Memmap.py on every run): the writer and the
+memory-mapped reader of gridded CAMx files declare the same four header records field by field; their payloads (without
+the two record markers) are the 76, 15, 4 and 4 words of the model's layout; and the species count and the grid sizes
+sit at the word offsets where the model reads them (71 in the first record; 7, 8, 9 in the second, i.e. words 72 and
+86..88 of the file) -/
+theorem uamiv_layout_matches_source :
+    Generated.uamivWriterEmiss = Generated.uamivReaderEmiss ∧ Generated.uamivWriterGrid = Generated.uamivReaderGrid ∧
+    Generated.uamivWriterCell = Generated.uamivReaderCell ∧ Generated.uamivWriterTime = Generated.uamivReaderTime ∧
+    Generated.uamivWriterEmiss.map (fun l => l.sum - 2) = some 76 ∧ Generated.uamivWriterGrid.map (fun l => l.sum - 2) = some 15 ∧
+    Generated.uamivWriterCell.map (fun l => l.sum - 2) = some 4 ∧ Generated.uamivWriterTime.map (fun l => l.sum - 2) = some 4 ∧
+    (∀ side ∈ [Generated.uamivWriterEmissFields, Generated.uamivReaderEmissFields], side.bind (·.lookup "nspec") = some 71) ∧
+    (∀ side ∈ [Generated.uamivWriterGridFields, Generated.uamivReaderGridFields],
+      side.bind (·.lookup "nx") = some 7 ∧ side.bind (·.lookup "ny") = some 8 ∧ side.bind (·.lookup "nz") = some 9) ∧
+    ∀ w : List Word, hNspec w = w.getD (1 + 71) 0 ∧ hNx w = w.getD (1 + 76 + 2 + 7) 0 ∧
+      hNy w = w.getD (1 + 76 + 2 + 8) 0 ∧ hNz w = max (w.getD (1 + 76 + 2 + 9) 0) 1 := by
+  refine ⟨by decide, by decide, by decide, by decide, by decide, by decide, by decide, by decide, by decide, by decide,
+    fun w => ⟨rfl, rfl, rfl, rfl⟩⟩
 
 end Props.C09
